@@ -1,6 +1,8 @@
 ------------------------------ MODULE MCGroupIds ------------------------------
 EXTENDS GroupIds
 K3 == [c \in {"a", "b", "c"} |-> IF c = "a" THEN -1 ELSE IF c = "b" THEN 0 ELSE -1]
+\* an exit of one gateway next to a call that asks for the id of another, live one
+KX == [c \in {"a", "b", "c"} |-> IF c = "a" THEN -1 ELSE IF c = "b" THEN -1 ELSE 1]
 F3 == {"a"}
 NoFail == {}
 K4 == [c \in {"a", "b", "c", "d"} |-> IF c \in {"a", "c"} THEN -1 ELSE IF c = "b" THEN 1 ELSE 1]
